@@ -30,20 +30,23 @@ type ValOpts struct {
 //	sig                  read the whole body; accept iff it is the body the client sent
 //	close_ok             read everything, close the body, accept
 type Spec struct {
-	Leg         string            `json:"leg"` // request | response
-	Doc         SDoc              `json:"doc"`
-	Marker      string            `json:"marker"`
-	Vals        []ValOpts         `json:"vals"`
-	Auth        map[string]string `json:"auth,omitempty"`
-	Req         ReqSpec           `json:"req"`
-	Resp        RespSpec          `json:"resp,omitempty"`
-	ReuseInput  bool              `json:"reuse_input,omitempty"`  // response leg: further responses go through the same ResponseValidationInput value
-	MoreReqs    []ReqSpec         `json:"more_reqs,omitempty"`    // request leg: further requests validated before any forwarded body is read
-	More        []RespSpec        `json:"more,omitempty"`         // response leg: further responses validated before any body is read back
-	MapSeed     uint64            `json:"map_seed,omitempty"`     // 0 = sorted map iteration inside the library; else a seeded permutation per site and visit (the neutral run always uses sorted order)
-	ReadReverse bool              `json:"read_reverse,omitempty"` // read the bodies back in reverse order
-	ReadBuf     int               `json:"read_buf,omitempty"`     // buffer size of the next handler
-	Again       bool              `json:"again,omitempty"`        // a fault-free request follows on the same document
+	Leg           string            `json:"leg"` // request | response
+	Doc           SDoc              `json:"doc"`
+	Marker        string            `json:"marker"`
+	Vals          []ValOpts         `json:"vals"`
+	Auth          map[string]string `json:"auth,omitempty"`
+	Req           ReqSpec           `json:"req"`
+	Resp          RespSpec          `json:"resp,omitempty"`
+	ReuseInput    bool              `json:"reuse_input,omitempty"`    // response leg: further responses go through the same ResponseValidationInput value
+	MoreReqs      []ReqSpec         `json:"more_reqs,omitempty"`      // request leg: further requests validated before any forwarded body is read
+	More          []RespSpec        `json:"more,omitempty"`           // response leg: further responses validated before any body is read back
+	MapSeed       uint64            `json:"map_seed,omitempty"`       // 0 = sorted map iteration inside the library; else a seeded permutation per site and visit (the neutral run always uses sorted order)
+	ReadReverse   bool              `json:"read_reverse,omitempty"`   // read the bodies back in reverse order
+	ReadBuf       int               `json:"read_buf,omitempty"`       // buffer size of the next handler
+	Again         bool              `json:"again,omitempty"`          // a fault-free request follows on the same document
+	Prelude       bool              `json:"prelude,omitempty"`        // before anything else, the same request is validated against a sibling document (same names, other defaults) in this process
+	SharedOptions bool              `json:"shared_options,omitempty"` // every validation of the run is given the same Options value per option set (as a middleware does)
+	RejectedFirst bool              `json:"rejected_first,omitempty"` // request leg: a request whose credentials nobody accepts is validated first, through the same Options
 }
 
 type ReqSpec struct {
@@ -290,6 +293,9 @@ func Gen(seed uint64, prop, tier string) *Spec {
 	if r.Chance(1, 3) {
 		s.MapSeed = r.Uint64() | 1
 	}
+	s.Prelude = r.Chance(1, 3)
+	s.SharedOptions = r.Chance(2, 3)
+	s.RejectedFirst = r.Chance(1, 4)
 	if s.Leg == "response" {
 		genResponse(r, s)
 		return s
@@ -298,6 +304,7 @@ func Gen(seed uint64, prop, tier string) *Spec {
 	d := &s.Doc
 	// security
 	shapes := []string{"", "", "single", "or", "and", "or3", "and_or", "empty_req", "or_empty", "empty_list", "undecl_or", "undecl_and", "undecl_only", "scopes_or", "scopes_or_rev", "scopes_mix", "nil_slice_ptr"}
+	d.Method = simfw.Pick(r, []string{"", "", "", "put", "patch", "delete", "options"})
 	d.SecOp = simfw.Pick(r, shapes)
 	d.SecDoc = simfw.Pick(r, []string{"", "", "single", "or", "and", "empty_list", "undecl_or"})
 	if prop == "C07" && d.SecOp == "" && d.SecDoc == "" {
